@@ -43,7 +43,10 @@ def build_state(case):
         tg = workload.get_task_graph(f"{g['name']}@0")
         for t in tg.get_nodes():
             tasks[(g["name"], t.name)] = t
-            if g.get("deadline") is not None:
+            if g.get("deadline_ms") is not None:
+                # the same instant family in another unit: time values of mixed units must order as instants (C16)
+                t.update_deadline(EventTime(g["deadline_ms"], EventTime.Unit.MS))
+            elif g.get("deadline") is not None:
                 t.update_deadline(T(g["deadline"]))
         for j in g["jobs"]:
             if j.get("deadline") is not None:
